@@ -11,6 +11,7 @@ import optoracle
 from optmodel import parse_observed, check_indices
 
 PROP = "C02"
+CONCURRENT = "parse"   # extra phase: lib/mtindep.py (parsers used by several threads at once)
 LEVEL = "exploration"
 RULE = ("random declarations (no defaults, no env) x random assignments over a hostile value pool x "
         "random renderings (long/short, ' '/'=' form, bundled toggles, permuted items, `--` placement), "
